@@ -9,6 +9,7 @@ Traces == JsonDeserialize(IOEnv.TRACE_FILE)
 N == Len(Traces)
 ASSUME \A t \in 1..N : TLCSet(t, 0)
 NoDev == {}
+AllPerms == Perms(Frags)
 
 VARIABLES tid, l
 tvars == <<vars, tid, l>>
